@@ -7,6 +7,7 @@ import (
 	"fmt"
 	"io"
 	"sort"
+	"strings"
 	"testing"
 	"time"
 
@@ -51,7 +52,61 @@ func gfsContent(id, from, n int) []byte {
 	return b
 }
 
+// genC18Aging: tracked uploads that take simulated seconds (suspended, resumed, closed and claimed with pauses)
+// while a janitor runs Cleanup with an age of the same order. Cleanup may collect an upload whose marker has not
+// been touched for that long - the uploader then fails, which is not judged - but an upload whose Close succeeded
+// at time T stays until a Cleanup that runs at T + age or later.
+func genC18Aging(seed uint64, run int) *Plan {
+	r := newRNG(seed, 181)
+	p := &Plan{Prop: "C18", Seed: seed, Run: run}
+	p.Cfg = Cfg{Store: "mem", Strategy: pick(r, "random", "random", "pct", "sticky"), PCTDepth: 1 + r.IntN(3), ExpireMs: 60000, Variant: "aging"}
+	age := pick(r, int64(1000), 2500)
+	pause := func() int64 { return pick(r, int64(0), int64(0), age/2, age+200, 2*age+100) }
+	for ti, n := 0, 1+r.IntN(2); ti < n; ti++ {
+		cs := pick(r, 3, 8, 16)
+		tp := TaskPlan{Name: fmt.Sprintf("up%d", ti), Role: "uploader"}
+		add := func(op Op) { op.C = "tr"; op.Limit = cs; tp.Ops = append(tp.Ops, op) }
+		sleep := func() {
+			if ms := pause(); ms > 0 {
+				add(Op{K: "sleep", Ms: ms})
+			}
+		}
+		add(Op{K: "gfs.open"})
+		written := 0
+		for k := 1 + r.IntN(3); k > 0; k-- {
+			w := pick(r, 1, cs, cs+1, 2*cs)
+			add(Op{K: "gfs.write", N: w})
+			written += w
+			if r.IntN(2) == 0 {
+				add(Op{K: "gfs.suspend"})
+				sleep()
+				add(Op{K: "gfs.resume"})
+				if lost := written % cs; lost > 0 {
+					add(Op{K: "gfs.write", N: lost})
+				}
+			} else {
+				sleep()
+			}
+		}
+		add(Op{K: "gfs.close"})
+		sleep()
+		add(Op{K: "gfs.claim"})
+		add(Op{K: "gfs.download", Items: []Op{{K: "read", N: cs + 1}}})
+		p.Tasks = append(p.Tasks, tp)
+	}
+	j := TaskPlan{Name: "janitor", Role: "janitor"}
+	for n := 2 + r.IntN(3); n > 0; n-- {
+		j.Ops = append(j.Ops, Op{K: "sleep", Ms: pick(r, age/2, age, age+300)})
+		j.Ops = append(j.Ops, Op{K: "gfs.cleanup", C: "tr", Ms: age})
+	}
+	p.Tasks = append(p.Tasks, j)
+	return p
+}
+
 func genC18(seed uint64, run int, tier string) *Plan {
+	if newRNG(seed, 0x181).IntN(100) < 10 {
+		return genC18Aging(seed, run)
+	}
 	r := newRNG(seed, 18)
 	p := &Plan{Prop: "C18", Seed: seed, Run: run}
 	p.Cfg = Cfg{
@@ -287,6 +342,12 @@ type gfsFile struct {
 type gfsRun struct {
 	e       *Env
 	buckets map[string]*lungo.Bucket
+
+	// aging variant
+	aging      bool
+	cleanupAge time.Duration // age of the janitor's Cleanup call in flight or last made (0: none yet)
+	janitor    *simrt.Task
+	collected  map[int]bool // files whose closed upload a Cleanup legitimately took (old enough)
 }
 
 func (g *gfsRun) docs(bucket, coll string, field string, id int) []bson.D {
@@ -494,7 +555,25 @@ func (g *gfsRun) abortAfterFault(f *gfsFile, what string) {
 	f.state, f.stream, f.marker = "gone", nil, false
 }
 
+// step runs one operation of a task's script. In the aging variant a tracked upload may legitimately be
+// collected by a Cleanup under the uploader's feet; whatever the uploader then reports is not judged (only the
+// commit-level rule "a closed upload stays until a Cleanup that runs age later" is), and the file is left alone.
 func (g *gfsRun) step(f *gfsFile, op *Op, shared bool) {
+	if g.aging && f.tracked && f.id >= 0 {
+		before := g.e.out.Violation
+		g.step1(f, op, shared)
+		if v := g.e.out.Violation; v != before && v != nil && v.Class != "cleanup-collected-fresh-upload" && g.cleanupAge > 0 {
+			g.e.logf("[file %d] not judged (a Cleanup with a small age has run): %s", f.id, v.Signature)
+			g.e.out.Violation = before
+			g.e.probe("aging-upload-not-judged")
+			f.state, f.stream = "unknown", nil
+		}
+		return
+	}
+	g.step1(f, op, shared)
+}
+
+func (g *gfsRun) step1(f *gfsFile, op *Op, shared bool) {
 	e := g.e
 	ctx := context.Background()
 	b := g.buckets[f.bucket]
@@ -653,7 +732,20 @@ func (g *gfsRun) step(f *gfsFile, op *Op, shared bool) {
 			skip()
 			return
 		}
-		err := b.ClaimUpload(ctx, int32(f.id))
+		var err error
+		if g.aging {
+			// next to a Cleanup that may collect it, an upload is claimed the documented way: inside a transaction
+			var sess lungo.ISession
+			sess, err = e.client.StartSession()
+			if err == nil {
+				_, err = sess.WithTransaction(ctx, func(sc lungo.ISessionContext) (interface{}, error) {
+					return nil, b.ClaimUpload(sc, int32(f.id))
+				})
+				sess.EndSession(ctx)
+			}
+		} else {
+			err = b.ClaimUpload(ctx, int32(f.id))
+		}
 		e.logf("[file %d] claim -> %v", f.id, err)
 		if isInjected(err) {
 			// a claim interrupted between its two writes is outside the statement
@@ -771,8 +863,13 @@ func (g *gfsRun) step(f *gfsFile, op *Op, shared bool) {
 			e.probe("deleted-clean")
 		}
 	case "gfs.cleanup":
-		err := b.Cleanup(ctx, 24*time.Hour)
-		e.logf("[janitor] cleanup -> %v", err)
+		age := 24 * time.Hour
+		if op.Ms > 0 {
+			age = time.Duration(op.Ms) * time.Millisecond
+			g.cleanupAge = age
+		}
+		err := b.Cleanup(ctx, age)
+		e.logf("[janitor] cleanup age=%v -> %v", age, err)
 		if err != nil && !isInjected(err) {
 			unexpected("Cleanup", err)
 		}
@@ -885,10 +982,84 @@ func (g *gfsRun) download(f *gfsFile, op *Op) {
 	e.probe("download-script")
 }
 
+// watchMarkers installs the commit-level rule of the aging variant: a marker that reached the state "uploaded"
+// in the commit at time T (the upload's Close) may be flagged deleted or removed by the janitor's Cleanup only
+// in a commit at T + age or later (Cleanup selects markers older than age). The uploader's own ClaimUpload and
+// Delete are free to do so at any time.
+func (g *gfsRun) watchMarkers() {
+	e := g.e
+	uploadedAt := map[string]time.Duration{}
+	state := func(cat *lungo.Catalog) map[string]string {
+		out := map[string]string{}
+		if cat == nil {
+			return out
+		}
+		if c := cat.Namespaces[lungo.Handle{"db", "tr.markers"}]; c != nil {
+			for _, d := range c.Documents.List {
+				dd := toD(d)
+				st, _ := gfsGet(dd, "state").(string)
+				fid, _ := gfsInt(gfsGet(dd, "files_id"))
+				out[fmt.Sprintf("%s/file %d", valStr(gfsGet(dd, "_id")), fid)] = st
+			}
+		}
+		return out
+	}
+	e.onCommit = append(e.onCommit, func(c *CommitRec) {
+		prev, cur := state(c.Prev), state(c.Cat)
+		for _, id := range sortedKeys(prev, cur) {
+			if prev[id] != cur[id] {
+				e.logf("  commit %d by %s at %v: marker %s %q -> %q", c.Seq, taskName(c.Task), c.At, id[strings.LastIndex(id, "/")+1:], prev[id], cur[id])
+			}
+		}
+		for id, st := range cur {
+			if st == "uploaded" && prev[id] != "uploaded" {
+				uploadedAt[id] = c.At
+			}
+		}
+		for id, st := range prev {
+			if st != "uploaded" || cur[id] == "uploaded" {
+				continue
+			}
+			if c.Task != nil && c.Task == g.janitor {
+				if since := c.At - uploadedAt[id]; since < g.cleanupAge-2*time.Millisecond {
+					e.violate(violation("C18", "cleanup-collected-fresh-upload", "", fmt.Sprintf("Cleanup(age %v) took marker %s of an upload that was closed only %v earlier (state now %q)", g.cleanupAge, id, since, cur[id])))
+				} else {
+					e.probe("cleanup-collected-old-upload")
+					var fid int
+					if _, err := fmt.Sscanf(id[strings.LastIndex(id, "/file ")+6:], "%d", &fid); err == nil {
+						if g.collected == nil {
+							g.collected = map[int]bool{}
+						}
+						g.collected[fid] = true
+					}
+				}
+			}
+		}
+	})
+}
+
+func sortedKeys(ms ...map[string]string) []string {
+	seen := map[string]bool{}
+	var out []string
+	for _, m := range ms {
+		for k := range m {
+			if !seen[k] {
+				seen[k] = true
+				out = append(out, k)
+			}
+		}
+	}
+	sort.Strings(out)
+	return out
+}
+
 func execC18(t *testing.T, plan *Plan) *Outcome {
 	return runPlan(t, plan, func(e *Env) {
 		sim := e.sim
-		g := &gfsRun{e: e, buckets: map[string]*lungo.Bucket{}}
+		g := &gfsRun{e: e, buckets: map[string]*lungo.Bucket{}, aging: plan.Cfg.Variant == "aging"}
+		if g.aging {
+			g.watchMarkers()
+		}
 		ok := false
 		var files []*gfsFile
 		sim.Go("setup", false, func(*simrt.Task) {
@@ -940,7 +1111,11 @@ func execC18(t *testing.T, plan *Plan) *Outcome {
 					continue
 				}
 				isShared := tp.Role == "reader"
-				sim.Go(tp.Name, false, func(*simrt.Task) {
+				isJanitor := tp.Role == "janitor"
+				sim.Go(tp.Name, false, func(task *simrt.Task) {
+					if isJanitor {
+						g.janitor = task
+					}
 					for k := range tp.Ops {
 						if e.failed() {
 							return
@@ -970,6 +1145,13 @@ func execC18(t *testing.T, plan *Plan) *Outcome {
 		done := false
 		sim.Go("final", false, func(*simrt.Task) {
 			for _, f := range files {
+				if g.collected[f.id] {
+					// closed, not claimed in time, old enough: a Cleanup took it, and then took all of it
+					if f.state == "uploaded" || f.state == "unknown" {
+						g.checkNothing(f, "at the end of the run, after a Cleanup collected the closed upload")
+					}
+					continue
+				}
 				switch f.state {
 				case "complete":
 					g.checkStored(f, "at the end of the run")
